@@ -100,21 +100,56 @@ def classify(toks):
 
 # ---------------------------------------------------------------- renderings
 
-def root_word_violation(argv, toks):
-    """True when, with several arguments, a search-root word shares its argument with tokens that follow it
-    (the lexer deliberately lets a root run to the end of its shell word) - open finding K02."""
+def _words(arg):
+    """Whitespace-separated words of one shell word (quotes protect blanks)."""
+    out, cur, quote = [], "", None
+    for c in arg:
+        if quote:
+            cur += c
+            if c == quote:
+                quote = None
+        elif c == " ":
+            if cur:
+                out.append(cur)
+                cur = ""
+        else:
+            if c in "'\"`":
+                quote = c
+            cur += c
+    if cur:
+        out.append(cur)
+    return out
+
+
+def root_word_violation(argv, toks=None):
+    """Open finding K02: with several arguments the lexer lets a search-root word run to the end of its shell word.
+    True when a root word (the word after FROM, or after a comma inside the FROM clause) shares its argument with
+    words that follow it, or itself contains a comma or bracket (which end a root only in one-argument mode)."""
     if len(argv) < 2:
         return False
-    kinds = classify(toks)
-    # rebuild which tokens fall into which argument
-    idx = 0
+    before_from, after_where, after_by = True, False, False
+    pending_root = False
     for a in argv:
-        n = len(a.split(" ")) if a else 0
-        part = kinds[idx:idx + n]
-        for j, (t, k) in enumerate(part):
-            if k == "path" and j + 1 < len(part):
-                return True
-        idx += n
+        ws = _words(a)
+        for j, w in enumerate(ws):
+            lw = w.lower()
+            in_from = not before_from and not after_where and not after_by
+            if pending_root:
+                pending_root = False
+                quoted = w[0] in "'\"`"
+                if j + 1 < len(ws) or (not quoted and any(c in w for c in ",(){}")):
+                    return True
+            if lw == "from":
+                before_from, after_where, after_by = False, False, False
+                pending_root = True
+            elif lw == "where":
+                after_where = True
+            elif lw == "by":
+                after_by = True
+            elif in_from and "," in w and w[0] not in "'\"`":
+                if w != ",":
+                    return True          # a comma glued to a word inside the FROM clause
+                pending_root = True
     return False
 
 
@@ -295,7 +330,8 @@ def run(out, base, argv):
     err = res.err.decode("utf-8", "replace")
     blocks = _Q.findall(err)
     parsed = blocks[-1].strip() if blocks else None
-    return {"status": res.status, "sig": res.sig, "out": res.out, "parsed": parsed, "stderr": err[-300:]}
+    return {"status": res.status, "sig": res.sig, "out": res.out, "parsed": parsed, "stderr": err[-300:],
+            "k02": k02_in_lexems(err)}
 
 
 def unordered_form(out, toks):
@@ -394,3 +430,80 @@ PINNED = [
                                     "renderings": [{"kind": "split/subset", "argv": ["name , size from .", "order by size desc ,", "name"]},
                                                    {"kind": "split/each", "argv": ["name", ",", "size", "from", ".", "order", "by", "size", "desc", ",", "name"]}]}),
 ]
+
+
+_ROOT_LEXEM = re.compile(r'(?:From|Comma),\s*RawString\(\s*"((?:[^"\\]|\\.)*)"')
+
+
+def k02_in_lexems(stderr_text):
+    """K02 seen from the lexem dump of a run (`debug = true`): a root lexem containing a blank, comma or bracket."""
+    i = stderr_text.find("&self.lexems = [")
+    if i < 0:
+        return False
+    block = stderr_text[i:]
+    return any(any(c in m.group(1) for c in " ,(){}") for m in _ROOT_LEXEM.finditer(block))
+
+
+def _fuzz_tokens(text):
+    out, cur, quote = [], "", None
+    for c in text:
+        if quote:
+            cur += c
+            if c == quote:
+                quote = None
+        elif c == " ":
+            if cur:
+                out.append(cur)
+                cur = ""
+        else:
+            if c in "'\"`":
+                quote = c
+            cur += c
+    if quote:
+        return None
+    if cur:
+        out.append(cur)
+    return out
+
+
+def supplement(tier, seed):
+    """libFuzzer campaign on the split-invariance target; artifacts are re-judged on the real binary through the
+    parsed-query oracle of this module."""
+    from .. import fuzzrun
+    ok, msg = fuzzrun.build_targets()
+    if not ok:
+        return {"available": False, "reason": msg[-300:]}
+    res = fuzzrun.campaign("split_invariance", 10000 if tier == "quick" else 400000, seed)
+    arts = res.pop("artifacts", [])
+    res["artifacts_found"] = len(arts)
+    res["reproduced_on_binary"] = 0
+    res["not_reproduced_discarded"] = 0
+    vio = []
+    base = tree_base()
+    for kind, data in arts[:20]:
+        try:
+            mask = data[0] | (data[1] << 8)
+            toks = _fuzz_tokens(data[2:].decode("utf-8"))
+        except Exception:
+            toks = None
+        if not toks or len(toks) < 2:
+            res["not_reproduced_discarded"] += 1
+            continue
+        split = [toks[0]]
+        for i, t in enumerate(toks[1:], 1):
+            if mask & (1 << ((i - 1) % 16)):
+                split.append(t)
+            else:
+                split[-1] += " " + t
+        o = Outcome()
+        a = run(o, base, [" ".join(toks)])
+        b = run(o, base, split)
+        if a and b and a["parsed"] is not None and a["parsed"].startswith("Ok(") and (a["parsed"] != b["parsed"]) \
+                and not root_word_violation(split, toks) and not b.get("k02"):
+            res["reproduced_on_binary"] += 1
+            vio.append(({"toks": toks, "renderings": [{"kind": "split/fuzz", "argv": split}]},
+                        [{"sig": "C11/split/fuzz/parsed-query-differs", "detail": {"argv": split, "diff": first_diff(a["parsed"], b["parsed"])}}]))
+        else:
+            res["not_reproduced_discarded"] += 1
+    res["violations"] = vio
+    return res
